@@ -436,5 +436,5 @@ def run(ctx):
     r8(ctx)
     symbol_layout_rule(ctx, 'C09.R9')
     import rules.common as _common
-    ctx.rule('C09.R12', 'arguments keep their roles across calls: at every call of a repository function in message.cpp (part index, ID and data must reach the builder in their own slots) whose arguments are named like parameters of the callee, no two of them are passed crosswise (argument i named like parameter j and argument j like parameter i)', minimum=20)
-    _common.swapped_args_rule(ctx, 'C09.R12', ('src/lib/ebus/message.',), 20)
+    ctx.rule('C09.R12', 'arguments keep their roles across calls: at every call of a repository function in message.cpp (part index, ID and data must reach the builder in their own slots) whose arguments are named like parameters of the callee, no two of them are passed crosswise (argument i named like parameter j and argument j like parameter i)', minimum=8)
+    _common.swapped_args_rule(ctx, 'C09.R12', ('src/lib/ebus/message.',), 8)
